@@ -14,6 +14,7 @@ import re
 VERIF = os.path.dirname(os.path.dirname(os.path.abspath(__file__)))
 MAX_BLOCKS = 120
 MAX_DEPTH = 4
+EXPAND_ITER = os.environ.get("VERIF_ITER_EXPAND") == "1"  # global expansion of iterator combinators: off (rules read the combinator forms); see expand_view
 
 
 def load_known():
@@ -193,7 +194,217 @@ def _map_block(b, lo, bo):
     return nb
 
 
-def inline_into(fn, callee_of, eligible, depth=0):
+# Option / Result combinators taking a closure, written out as the match they stand for.  (variant index of the arm that runs the closure,
+# what the other arm yields, what the closure arm yields, index of the closure argument)
+COMBINATORS = {
+    r"option::Option::<T>::is_none_or$": (1, ("const", 1), ("ret",), 1),
+    r"option::Option::<T>::is_some_and$": (1, ("const", 0), ("ret",), 1),
+    r"option::Option::<T>::map_or$": (1, ("arg", 1), ("ret",), 2),
+    r"option::Option::<T>::and_then$": (1, ("agg", "std::option::Option", "None", 0, None), ("ret",), 1),
+    r"option::Option::<T>::map$": (1, ("agg", "std::option::Option", "None", 0, None), ("wrap", "std::option::Option", "Some", 1), 1),
+    r"result::Result::<T, E>::is_ok_and$": (0, ("const", 0), ("ret",), 1),
+    r"result::Result::<T, E>::map_or$": (0, ("arg", 1), ("ret",), 2),
+    r"result::Result::<T, E>::and_then$": (0, ("agg", "std::result::Result", "Err", 1, "payload"), ("ret",), 1),
+    r"result::Result::<T, E>::map$": (0, ("agg", "std::result::Result", "Err", 1, "payload"), ("wrap", "std::result::Result", "Ok", 0), 1),
+    r"result::Result::<T, E>::map_err$": (1, ("agg", "std::result::Result", "Ok", 0, "payload"), ("wrap", "std::result::Result", "Err", 1), 1),
+}
+_VNAME = {"std::option::Option": {0: "None", 1: "Some"}, "std::result::Result": {0: "Ok", 1: "Err"}}
+
+
+def _closure_of_operand(fn, op, closures_by_id):
+    """the closure Fn whose value the operand holds (a local assigned a closure aggregate, possibly through plain moves)"""
+    seen = 0
+    while op.get("pl") and not op["pl"]["p"] and seen < 4:
+        seen += 1
+        l = op["pl"]["l"]
+        defs = [s for bl in fn.blocks if not bl["cleanup"] for s in bl["stmts"] if s["lhs"]["l"] == l and not s["lhs"]["p"]]
+        if len(defs) != 1:
+            return None, None
+        r = defs[0]["rhs"]
+        if r["rv"] == "agg" and r.get("cid") in closures_by_id:
+            return closures_by_id[r["cid"]], l
+        if r["rv"] == "use" and r["ops"][0].get("pl"):
+            op = r["ops"][0]
+            continue
+        return None, None
+    return None, None
+
+
+def expand_combinator(fn, b, view_of, closures_by_id):
+    """rewrite `recv.comb(.., closure)` at the end of block b into `match recv { arm => closure body, other => default }`; returns True when done"""
+    t = b["term"]
+    cal = t.get("callee") or ""
+    spec = next((v for k, v in COMBINATORS.items() if re.search(k, cal)), None)
+    if spec is None or not t.get("succ"):
+        return False
+    arm, other, mine, ci = spec
+    if len(t["args"]) <= ci or not t["args"][0].get("pl"):
+        return False
+    c, cl_local = _closure_of_operand(fn, t["args"][ci], closures_by_id)
+    if c is None:
+        return False
+    g = view_of(c)
+    if g is None or len(g.blocks) > MAX_BLOCKS or g.argc != 2:
+        return False
+    recv = t["args"][0]["pl"]
+    adt = "std::option::Option" if "option::Option" in cal else "std::result::Result"
+    sp = t.get("sp")
+    lo, bo = len(fn.locals), len(fn.blocks)
+    fn.locals.extend(g.locals)
+    new = [_map_block(x, lo, bo) for x in g.blocks]
+    ret_id, other_id, mine_id = bo + len(new), bo + len(new) + 1, bo + len(new) + 2
+    d = b.get("inl_depth", 0) + 1
+    for nb in new:
+        nb["inl_depth"] = d
+        nb["inl_from"] = g.name
+        if nb["term"]["t"] == "return":
+            nb["term"] = {"t": "goto", "succ": [ret_id], "sp": nb["term"].get("sp") or sp}
+    dl = len(fn.locals)
+    fn.locals.append("isize")
+
+    def payload(vidx):
+        return {"l": recv["l"], "p": list(recv["p"]) + [{"dc": vidx, "n": _VNAME[adt][vidx]}, {"f": 0, "n": None}]}
+    res = {"k": "move", "pl": {"l": lo, "p": []}}
+    if mine[0] == "ret":
+        rhs = {"rv": "use", "ops": [res]}
+    else:
+        rhs = {"rv": "agg", "adt": mine[1], "variant": mine[2], "vidx": mine[3], "ops": [res]}
+    mk = dict(cleanup=False, inl=True, inl_depth=b.get("inl_depth", 0), inl_from=g.name)
+    retb = dict(mk, id=ret_id, stmts=[{"lhs": t["dest"], "rhs": rhs, "sp": sp}], term={"t": "goto", "succ": [t["succ"][0]], "sp": sp})
+    if other[0] == "const":
+        orhs = {"rv": "use", "ops": [{"k": "const", "ty": "bool", "int": other[1], "bits": 8}]}
+    elif other[0] == "arg":
+        orhs = {"rv": "use", "ops": [t["args"][other[1]]]}
+    else:
+        ops = [{"k": "move", "pl": payload(other[3])}] if other[4] == "payload" else []
+        orhs = {"rv": "agg", "adt": other[1], "variant": other[2], "vidx": other[3], "ops": ops}
+    otherb = dict(mk, id=other_id, stmts=[{"lhs": t["dest"], "rhs": orhs, "sp": sp}], term={"t": "goto", "succ": [t["succ"][0]], "sp": sp})
+    envty = g.locals[1]
+    env_pl = {"l": cl_local, "p": []}
+    if envty.startswith("&"):
+        env_rhs = {"rv": "ref", "mut": envty.startswith("&mut"), "pl": env_pl}
+    else:
+        env_rhs = {"rv": "use", "ops": [{"k": "move", "pl": env_pl}]}
+    mineb = dict(mk, id=mine_id, stmts=[{"lhs": {"l": lo + 1, "p": []}, "rhs": env_rhs, "sp": sp},
+                                        {"lhs": {"l": lo + 2, "p": []}, "rhs": {"rv": "use", "ops": [{"k": "move", "pl": payload(arm)}]}, "sp": sp}],
+                 term={"t": "goto", "succ": [bo], "sp": sp})
+    b["stmts"].append({"lhs": {"l": dl, "p": []}, "rhs": {"rv": "discr", "pl": recv}, "sp": sp})
+    b["term"] = {"t": "switch", "discr": {"k": "move", "pl": {"l": dl, "p": []}}, "cases": [[arm, mine_id]], "otherwise": other_id, "sp": sp, "expanded_call": cal}
+    fn.blocks.extend(new)
+    fn.blocks.extend([retb, otherb, mineb])
+    fn.vars = list(fn.vars) + [[nm, l + lo] for nm, l in g.vars]
+    return True
+
+
+ITER_COMBINATORS = {
+    r"iter::Iterator::for_each$": "for_each",
+    r"iter::Iterator::find_map$": "find_map",
+    r"iter::Iterator::find$": "find",
+    r"iter::Iterator::any$": "any",
+    r"iter::Iterator::all$": "all",
+}
+
+
+def expand_iter_combinator(fn, b, view_of, closures_by_id):
+    """write `iter.for_each(f)` / `find_map` / `find` / `any` / `all` out as the loop over Iterator::next they stand for"""
+    t = b["term"]
+    cal = t.get("callee") or ""
+    kind = next((v for k, v in ITER_COMBINATORS.items() if re.search(k, cal)), None)
+    if kind is None or not t.get("succ") or len(t["args"]) != 2 or not t["args"][0].get("pl"):
+        return False
+    c, cl_local = _closure_of_operand(fn, t["args"][1], closures_by_id)
+    if c is None:
+        return False
+    g = view_of(c)
+    if g is None or len(g.blocks) > MAX_BLOCKS or g.argc != 2:
+        return False
+    sp = t.get("sp")
+    recv = t["args"][0]["pl"]
+    recv_ty = fn.locals[recv["l"]] if not recv["p"] else "?"
+    lo, bo = len(fn.locals), len(fn.blocks)
+    fn.locals.extend(g.locals)
+    new = [_map_block(x, lo, bo) for x in g.blocks]
+    H = bo + len(new)
+    HS, BIND, RET, EXITN, FOUND = H + 1, H + 2, H + 3, H + 4, H + 5
+    d = b.get("inl_depth", 0) + 1
+    for nb in new:
+        nb["inl_depth"] = d
+        nb["inl_from"] = g.name
+        if nb["term"]["t"] == "return":
+            nb["term"] = {"t": "goto", "succ": [RET], "sp": nb["term"].get("sp") or sp}
+    param_ty = g.locals[2]
+    item_ty = param_ty[1:].lstrip() if kind == "find" and param_ty.startswith("&") else param_ty
+    nloc = len(fn.locals)
+    fn.locals.append("std::option::Option<%s>" % item_ty)
+    dloc = len(fn.locals)
+    fn.locals.append("isize")
+    rmloc = len(fn.locals)
+    fn.locals.append("&mut " + recv_ty)
+    itloc = len(fn.locals)
+    fn.locals.append(item_ty)
+    d2loc = len(fn.locals)
+    fn.locals.append("isize")
+    mk = dict(cleanup=False, inl=True, inl_depth=b.get("inl_depth", 0), inl_from=g.name)
+    by_value = kind == "for_each"
+    it_ty = re.sub(r"^&mut\s*", "", recv_ty)
+    hstm = []
+    if by_value:
+        hstm.append({"lhs": {"l": rmloc, "p": []}, "rhs": {"rv": "ref", "mut": True, "pl": recv}, "sp": sp})
+        nxt_arg = {"k": "move", "pl": {"l": rmloc, "p": []}}
+    else:
+        nxt_arg = {"k": "copy", "pl": recv}
+    nm = "<%s as std::iter::Iterator>::next" % it_ty
+    hb = dict(mk, id=H, stmts=hstm, term={"t": "call", "callee": "std::iter::Iterator::next", "resolved": nm, "args": [nxt_arg], "dest": {"l": nloc, "p": []}, "succ": [HS],
+                                            "unwind": -1, "sp": sp, "written": nm, "synthetic": cal, "fnop": {"k": "const", "txt": nm}})
+    hsb = dict(mk, id=HS, stmts=[{"lhs": {"l": dloc, "p": []}, "rhs": {"rv": "discr", "pl": {"l": nloc, "p": []}}, "sp": sp}],
+               term={"t": "switch", "discr": {"k": "move", "pl": {"l": dloc, "p": []}}, "cases": [[1, BIND]], "otherwise": EXITN, "sp": sp})
+    envty = g.locals[1]
+    env_pl = {"l": cl_local, "p": []}
+    env_rhs = {"rv": "ref", "mut": envty.startswith("&mut"), "pl": env_pl} if envty.startswith("&") else {"rv": "use", "ops": [{"k": "move", "pl": env_pl}]}
+    payload = {"l": nloc, "p": [{"dc": 1, "n": "Some"}, {"f": 0, "n": None}]}
+    bstm = [{"lhs": {"l": lo + 1, "p": []}, "rhs": env_rhs, "sp": sp}]
+    if kind == "find":
+        bstm.append({"lhs": {"l": itloc, "p": []}, "rhs": {"rv": "use", "ops": [{"k": "move", "pl": payload}]}, "sp": sp})
+        bstm.append({"lhs": {"l": lo + 2, "p": []}, "rhs": {"rv": "ref", "mut": False, "pl": {"l": itloc, "p": []}}, "sp": sp})
+    else:
+        bstm.append({"lhs": {"l": lo + 2, "p": []}, "rhs": {"rv": "use", "ops": [{"k": "move", "pl": payload}]}, "sp": sp})
+    bindb = dict(mk, id=BIND, stmts=bstm, term={"t": "goto", "succ": [bo], "sp": sp})
+    res = {"l": lo, "p": []}
+    succ = t["succ"][0]
+
+    def const_bool(v):
+        return {"rv": "use", "ops": [{"k": "const", "ty": "bool", "int": v, "bits": 8}]}
+    none_rhs = {"rv": "agg", "adt": "std::option::Option", "variant": "None", "vidx": 0, "ops": []}
+    if kind == "for_each":
+        retb = dict(mk, id=RET, stmts=[], term={"t": "goto", "succ": [H], "sp": sp})
+        exitb = dict(mk, id=EXITN, stmts=[], term={"t": "goto", "succ": [succ], "sp": sp})
+        foundb = dict(mk, id=FOUND, stmts=[], term={"t": "goto", "succ": [succ], "sp": sp})
+    elif kind == "find_map":
+        retb = dict(mk, id=RET, stmts=[{"lhs": {"l": d2loc, "p": []}, "rhs": {"rv": "discr", "pl": res}, "sp": sp}],
+                    term={"t": "switch", "discr": {"k": "move", "pl": {"l": d2loc, "p": []}}, "cases": [[1, FOUND]], "otherwise": H, "sp": sp})
+        exitb = dict(mk, id=EXITN, stmts=[{"lhs": t["dest"], "rhs": none_rhs, "sp": sp}], term={"t": "goto", "succ": [succ], "sp": sp})
+        foundb = dict(mk, id=FOUND, stmts=[{"lhs": t["dest"], "rhs": {"rv": "use", "ops": [{"k": "move", "pl": res}]}, "sp": sp}], term={"t": "goto", "succ": [succ], "sp": sp})
+    elif kind == "find":
+        retb = dict(mk, id=RET, stmts=[], term={"t": "switch", "discr": {"k": "move", "pl": res}, "cases": [[0, H]], "otherwise": FOUND, "sp": sp})
+        exitb = dict(mk, id=EXITN, stmts=[{"lhs": t["dest"], "rhs": none_rhs, "sp": sp}], term={"t": "goto", "succ": [succ], "sp": sp})
+        foundb = dict(mk, id=FOUND, stmts=[{"lhs": t["dest"], "rhs": {"rv": "agg", "adt": "std::option::Option", "variant": "Some", "vidx": 1,
+                                                                      "ops": [{"k": "move", "pl": {"l": itloc, "p": []}}]}, "sp": sp}], term={"t": "goto", "succ": [succ], "sp": sp})
+    elif kind == "any":
+        retb = dict(mk, id=RET, stmts=[], term={"t": "switch", "discr": {"k": "move", "pl": res}, "cases": [[0, H]], "otherwise": FOUND, "sp": sp})
+        exitb = dict(mk, id=EXITN, stmts=[{"lhs": t["dest"], "rhs": const_bool(0), "sp": sp}], term={"t": "goto", "succ": [succ], "sp": sp})
+        foundb = dict(mk, id=FOUND, stmts=[{"lhs": t["dest"], "rhs": const_bool(1), "sp": sp}], term={"t": "goto", "succ": [succ], "sp": sp})
+    else:  # all
+        retb = dict(mk, id=RET, stmts=[], term={"t": "switch", "discr": {"k": "move", "pl": res}, "cases": [[0, FOUND]], "otherwise": H, "sp": sp})
+        exitb = dict(mk, id=EXITN, stmts=[{"lhs": t["dest"], "rhs": const_bool(1), "sp": sp}], term={"t": "goto", "succ": [succ], "sp": sp})
+        foundb = dict(mk, id=FOUND, stmts=[{"lhs": t["dest"], "rhs": const_bool(0), "sp": sp}], term={"t": "goto", "succ": [succ], "sp": sp})
+    b["term"] = {"t": "goto", "succ": [H], "sp": sp, "expanded_call": cal}
+    fn.blocks.extend(new)
+    fn.blocks.extend([hb, hsb, bindb, retb, exitb, foundb])
+    fn.vars = list(fn.vars) + [[nm_, l + lo] for nm_, l in g.vars]
+    return True
+
+
+def inline_into(fn, callee_of, eligible, depth=0, expander=None):
     """returns number of call sites inlined into fn (mutates fn.blocks / fn.locals in place)"""
     n = 0
     i = 0
@@ -202,6 +413,9 @@ def inline_into(fn, callee_of, eligible, depth=0):
         i += 1
         t = b["term"]
         if t["t"] != "call" or b.get("inl_depth", 0) >= MAX_DEPTH:
+            continue
+        if expander is not None and expander(fn, b):
+            n += 1
             continue
         g = callee_of(t)
         if g is None or g is fn or not eligible(g) or len(g.blocks) > MAX_BLOCKS or not t.get("succ"):
@@ -291,7 +505,8 @@ def run(prog, ws=("msi", "msi_ffi")):
     helpers = [f for f in targets if eligible(f)]
     direct = any(re.search(r"ops::(Fn::call|FnMut::call_mut|FnOnce::call_once)$", t.get("callee") or "") and (prog.callee_fn(t) is not None and prog.callee_fn(t).kind == "Closure")
                  for f in targets for _, t in f.calls())
-    if not helpers and not direct:
+    combs = any(re.search(k, t.get("callee") or "") for f in targets for _, t in f.calls() for k in list(COMBINATORS) + list(ITER_COMBINATORS))
+    if not helpers and not direct and not combs:
         return report
     for f in targets:
         pristine[f.id] = (copy.deepcopy(f.blocks), list(f.locals), list(f.vars), list(f.closures))
@@ -322,13 +537,29 @@ def run(prog, ws=("msi", "msi_ffi")):
             return pristine_view(g, closure_call=True)
         return None
 
+    closures_by_id = {g.id: g for g in targets if g.kind == "Closure"}
+    expanded = set()
+
+    def expander(fn_, b_):
+        def view_of(c):
+            if c.id not in pristine or any(cname_self(tt) == c.name for _, tt in c.calls()):
+                return None
+            return pristine_view(c, closure_call=True)
+        t_ = b_["term"]
+        c_, _l = _closure_of_operand(fn_, t_["args"][-1], closures_by_id) if t_["t"] == "call" and t_["args"] else (None, None)
+        if expand_combinator(fn_, b_, view_of, closures_by_id) or (EXPAND_ITER and expand_iter_combinator(fn_, b_, view_of, closures_by_id)):
+            if c_ is not None:
+                expanded.add(c_.id)
+            return True
+        return False
+
     def cname_self(tt):
         h = prog.callee_fn(tt)
         return h.name if h is not None else None
 
     # iterate: inline_into handles nesting by re-scanning appended blocks (depth-bounded)
     for f in targets:
-        n = inline_into(f, callee_view, lambda v: True)
+        n = inline_into(f, callee_view, lambda v: True, expander=expander)
         if n:
             report[f.name] = sorted({b.get("inl_from") for b in f.blocks if b.get("inl_from")})
     prog.raw = pristine
@@ -347,7 +578,9 @@ def run(prog, ws=("msi", "msi_ffi")):
                     if o.get("k") == "const" and o.get("fnid") in prog.fns:
                         still.add(o["fnid"])
     prog.removed_helpers = []
-    for h in helpers + [prog.fns[i] for i in called_closures if i in prog.fns]:
+    # a closure whose every use was expanded or inlined is represented inside its user: it is still *constructed* there (the aggregate statement stays), which
+    # is not a use of its body
+    for h in helpers + [prog.fns[i] for i in (called_closures | expanded) if i in prog.fns]:
         if h.id not in still:
             prog.removed_helpers.append(h.name)
             del prog.fns[h.id]
@@ -356,3 +589,33 @@ def run(prog, ws=("msi", "msi_ffi")):
         if any(c.id not in prog.fns for c in f.closures):
             f.closures = [c for c in f.closures if c.id in prog.fns]
     return report
+
+
+def expand_view(prog, f):
+    """a copy of f in which `iter.for_each / find_map / find / any / all (closure)` are written out as loops over Iterator::next with the closure body in
+    place (and Option/Result combinators as matches). Rules whose anchors live in such a closure (`entries.find_map(|e| ..)`, `chars.for_each(|c| ..)`)
+    fall back to this view; the program itself keeps the combinator forms the other rules read."""
+    from .facts import Fn
+    raw = copy.deepcopy(f.raw)
+    raw["blocks"] = copy.deepcopy(f.blocks)
+    raw["locals"] = list(f.locals)
+    g = Fn(f.crate, raw)
+    g.owner, g.closures = f.owner, list(f.closures)
+    g.vars = list(f.vars)
+    closures_by_id = {c.id: c for c in prog.fns.values() if c.kind == "Closure"}
+
+    class View:
+        pass
+
+    def view_of(c):
+        v = View()
+        v.blocks, v.locals, v.vars, v.closures = copy.deepcopy(c.blocks), list(c.locals), list(c.vars), list(c.closures)
+        v.name, v.argc, v.closure_call = c.name, c.argc, True
+        return v
+
+    def expander(fn_, b_):
+        return expand_combinator(fn_, b_, view_of, closures_by_id) or expand_iter_combinator(fn_, b_, view_of, closures_by_id)
+    inline_into(g, lambda t: None, lambda v: False, expander=expander)
+    g._succ = None
+    g._preds = None
+    return g
